@@ -171,9 +171,13 @@ class Check(CheckBase):
                 acc0 = z3.If(z3.Or(r1 < 0, z3.And(r1 == 0, accel.t < 0)), M31 - 1, 0)
             X = run.fresh_int("S")
             run.assume(2 * X == 2 * acc0 + 2 * T.t * r0 + accel.t * T.t * (T.t + 1))
-            if len(rounded) == 1 and isinstance(rounded[0], SymInt):
-                if run.prove(tag + ":lemma round()=S(T)", rounded[0].t == X) == "unsat":
+            if rounded and isinstance(rounded[-1], SymInt):
+                rounded = [rounded[-1]]    # the last round() call is the one applied to the accumulated total
+                v = run.prove(tag + ":lemma round()=S(T)", rounded[0].t == X)
+                if v == "unsat":
                     run.assume(rounded[0].t == X)
+                elif v == "sat":
+                    return
             for i, nm, ox in ((0, "position", X / M31), (1, "accumulator", X % M31)):
                 for which, rr in (("t3", res), ("lt", res2)):
                     a = rr[i]
@@ -202,10 +206,14 @@ class Check(CheckBase):
         run.reach(tag + (":snap" if snap else ":nosnap"))
         pos, acc = res
         assert isinstance(pos, (SymInt, int)) and isinstance(acc, (SymInt, int))
-        if len(rounded) == 1 and isinstance(rounded[0], SymInt):
+        if rounded and isinstance(rounded[-1], SymInt):
+            rounded = [rounded[-1]]    # the last round() call is the one applied to the accumulated total
             # hint lemma (proved, then assumed): the integer produced by the code's round() is S(T)
-            if run.prove(tag + ":lemma round()=S(T)", rounded[0].t == X) == "unsat":
+            v = run.prove(tag + ":lemma round()=S(T)", rounded[0].t == X)
+            if v == "unsat":
                 run.assume(rounded[0].t == X)
+            elif v == "sat":
+                return        # already refuted on this path: position/accumulator would only repeat it (and are slow without the lemma)
         run.prove(tag + ":position", (pos.t if isinstance(pos, SymInt) else pos) == X / M31)
         run.prove(tag + ":accumulator", (acc.t if isinstance(acc, SymInt) else acc) == X % M31)
         calc.precision_obligations(run, tag)
